@@ -143,7 +143,9 @@ func ServicePortDesignation(p *core.Program, r *core.Report, rule string) {
 			x, y := be.X, be.Y
 			sw := func(f func(a, b ast.Expr) bool) bool { return f(x, y) || f(y, x) }
 			switch {
-			case be.Op == token.EQL && sw(func(a, b ast.Expr) bool { return fieldPathEndsWith(info, a, "ServicePort", "Name") && isReq(b, "StrVal") }):
+			case be.Op == token.EQL && sw(func(a, b ast.Expr) bool {
+				return fieldPathEndsWith(info, a, "ServicePort", "Name") && isReq(b, "StrVal")
+			}):
 				kind = "name"
 			case be.Op == token.NEQ && sw(func(a, b ast.Expr) bool {
 				v, isC := core.ConstString(info, b)
@@ -155,7 +157,9 @@ func ServicePortDesignation(p *core.Program, r *core.Report, rule string) {
 				return isReq(a, "StrVal") && isC && v == ""
 			}):
 				nonEmptyName = true
-			case be.Op == token.EQL && sw(func(a, b ast.Expr) bool { return fieldPathEndsWith(info, a, "ServicePort", "Port") && isReq(b, "IntVal") }):
+			case be.Op == token.EQL && sw(func(a, b ast.Expr) bool {
+				return fieldPathEndsWith(info, a, "ServicePort", "Port") && isReq(b, "IntVal")
+			}):
 				kind = "port"
 			case be.Op == token.EQL && sw(func(a, b ast.Expr) bool {
 				return fieldPathEndsWith(info, a, "ServicePort", "TargetPort") && isReq(b, "")
